@@ -61,7 +61,13 @@ func (e *legacyExtra) addResults(results flows.Results) {
 		sortedResults = append(sortedResults, result)
 
 	}
-	sort.SliceStable(sortedResults, func(i, j int) bool { return sortedResults[i].CreatedOn.Before(sortedResults[j].CreatedOn) })
+	// results come from a map so those created at the same time are ordered by name
+	sort.SliceStable(sortedResults, func(i, j int) bool {
+		if sortedResults[i].CreatedOn.Equal(sortedResults[j].CreatedOn) {
+			return sortedResults[i].Name < sortedResults[j].Name
+		}
+		return sortedResults[i].CreatedOn.Before(sortedResults[j].CreatedOn)
+	})
 
 	// add each result in order
 	for _, result := range sortedResults {
